@@ -587,6 +587,51 @@ def check_failing(ck, case, rng, parallel):
                      {"case": c2, "parallel": parallel, "step": "after-failing"})
 
 
+# ------------------------------------------------------------------ lazy result, configuration edited before it is computed
+def check_lazy_edit(ck, case, rng):
+    """with_dask=True: run_mode returns a lazy result; the caller then edits the detector / pipeline (the next
+    configuration of a notebook) and only afterwards computes the first result: its runs must be the standalone
+    exposures of the configuration GIVEN TO THE CALL"""
+    import dask
+    import pyxel
+
+    if case["mode"] == "custom":
+        return
+    det, pipe, n_extra = build(case)
+    rc = c05.reconfigure(case, rng)
+    tmp = tempfile.mkdtemp(prefix="verif-c06-lazy-")
+    cwd = os.getcwd()
+    try:
+        os.chdir(tmp)
+        obs = c05.build_observation(case, tmp, with_dask=True)
+        try:
+            dt = pyxel.run_mode(mode=obs, detector=det, pipeline=pipe, with_inherited_coords=True)
+            # the edit: other configured values for the model arguments and the detector fields
+            c05.apply_det_overrides(det, rc)
+            for m in rc["models"]:
+                mf = getattr(getattr(pipe, m["group"]), m["name"])
+                for a, v in m["args"].items():
+                    mf.arguments[a] = json.loads(json.dumps(v))
+            with dask.config.set(scheduler="threads", num_workers=3):
+                res = c05.extract_entries(c05.find_bucket(dt), c05.nslots(case) + n_extra)
+        except Exception as e:  # noqa: BLE001
+            ck.count("lazy-edit:error:" + common.err_kind(e))
+            return
+    finally:
+        os.chdir(cwd)
+        shutil.rmtree(tmp, ignore_errors=True)
+    ck.case({"case": case, "lazy_edit": True}, nontrivial=len(res["entries"]) >= 2, stream="lazy-edit")
+    ck.count("lazy-edit:computed-after-edit")
+    spec = c05.spec_runs(case)
+    want = sorted(common.canon(standalone(case, r["assignment"], n_extra)) for r in spec)
+    got = sorted(common.canon(e["data"]) for e in res["entries"])
+    if got != want:
+        ck.violation("C06:lazy-result-uses-objects-edited-after-the-call",
+                     "with_dask=True: the caller edited the detector / pipeline after run_mode returned and before the result was "
+                     "computed; the runs' data are not the standalone exposures of the configuration given to the call",
+                     {"case": case, "lazy_edit": True, "got": got[:4], "want": want[:4]})
+
+
 # ------------------------------------------------------------------ state outside the copied processor
 def check_load_image(ck, rng, parallel):
     """pipelines with the built-in `load_image` (cached file read, scale ≠ 1): every run of two successive observations
@@ -701,6 +746,32 @@ def check_calibration(ck, rng):
         if sh:
             ck.disagreement("sep-hypothesis", {"entry": "update_processor"}, [g.desc.get(x, str(g.heap[x])) for x in sh][:10], [],
                             key="C06:update_processor:shared-mutable-node")
+        # (c'): one candidate applied to the processors of SEVERAL targets: a vector-valued variable handed to a model that
+        # changes its array argument in place must reach every target's run with the candidate's own values
+        for i in (0, 1):
+            np.save(f"{tmp}/t{i}.npy", np.full((rows, cols), 5.0))
+        det, pipe = pyx.make_detector("CCD", rows, cols), pyx.make_pipeline({
+            "photon_collection": [{"name": "p", "func": "obsprobes.stamp", "arguments": {"slot": 0, "a": 0}}],
+            "signal_transfer": [{"name": "mut", "func": "obsprobes.mutate", "arguments": {"slot": 1, "bag": [1.0, 2.0], "table": {}}}]})
+        fit2 = ModelFittingDataTree(
+            processor=Processor(detector=det, pipeline=pipe),
+            variables=[ParameterValues(key="pipeline.signal_transfer.mut.arguments.bag", values=["_", "_"], boundaries=(0.0, 10.0))],
+            readout=Readout(), simulation_output="pixel", generations=1, population_size=4,
+            fitness_func=FitnessFunction("pyxel.calibration.fitness.sum_of_abs_residuals"), file_path=None,
+            target_filenames=[f"{tmp}/t0.npy", f"{tmp}/t1.npy"], target_fit_range=to_fit_range([0, rows, 0, cols]),
+            out_fit_range=FitRange3D.from_sequence([0, rows, 0, cols]),
+            input_arguments=[ParameterValues(key="pipeline.photon_collection.p.arguments.a", values=[1, 2])])
+        x = np.array([rng.randrange(1, 40) / 4, rng.randrange(1, 40) / 4])
+        obsprobes.reset()
+        fit2.fitness(x.copy())
+        seen = [json.loads(r[2])["bag"] for r in obsprobes.LOG if r[0] == "mutate"]
+        ck.case({"calibration": "two-targets-vector-variable", "x": x.tolist()}, nontrivial=True, stream="calibration")
+        ck.count("calibration:two-targets-vector-variable")
+        if len(seen) != 2 or any(s != obsprobes.canon_val(x.tolist()) for s in seen):
+            ck.violation("C06:calibration:vector-variable-shared-between-targets",
+                         f"candidate {x.tolist()} applied to two targets: the model of the targets received {seen} (the first target's "
+                         "in-place change of its argument reached the second target's run)",
+                         {"calibration": "two-targets-vector-variable", "x": x.tolist()})
         # (b): a whole calibration through run_mode
         det, pipe = objects()
         before = snapshot(detector=det, pipeline=pipe)
@@ -789,6 +860,8 @@ def body(ck: common.Check):
         ck.count(f"memory_seen={case['memory_seen']}")
         for k in case["stateful"]:
             ck.count(f"stateful={k}")
+    for case in cases[:3] if quick else cases[:40]:
+        check_lazy_edit(ck, case, rng)
     for i in range(6 if quick else 40):
         check_readout_sweep(ck, rng, parallel=bool(i % 2))
     for i in range(2 if quick else 16):
@@ -857,6 +930,10 @@ def replay(path):
         print("REPRODUCED: " + ck.violations[0]["what"] if ck.violations else "not reproduced")
         return 1 if ck.violations else 0
     ck = common.Check("C06", "quick")
+    if r.get("lazy_edit"):
+        check_lazy_edit(ck, case, random.Random(0))
+        print("REPRODUCED: " + ck.violations[0]["what"] if ck.violations else "not reproduced (property holds on this input)")
+        return 1 if ck.violations else 0
     if "entry" in r:
         batch = []
         js = check_sep(ck, case, batch)
